@@ -13,10 +13,10 @@ func init() {
 		Level: "Decides that series ids are issued from one monotonic counter that is only incremented or raised (never reset), that replay raises it past every id it meets in series and tombstone records, " +
 			"that every append method which looks a series up by a caller-supplied reference falls back to the label set when the reference is unknown, that hash lookups compare label sets, " +
 			"and that evicted refs are tombstoned in the WAL.",
-		Note:     "Trusted: go/packages, go/cfg, rule tables in checker/c22.go.",
-		Covers:   "writers of Head.lastSeriesID and their guards; replay siblings (series / tombstone records, snapshot); getByID fallbacks in 8 append methods; labels.Equal in seriesHashmap get/set; immutability of memSeries.ref; tombstone record for evicted series.",
-		NotCover: "the scrape cache and remote-write reference use after restart (runtime histories).",
-		Run:      runC22,
+		Note:           "Trusted: go/packages, go/cfg, rule tables in checker/c22.go.",
+		Covers:         "writers of Head.lastSeriesID and their guards; replay siblings (series / tombstone records, snapshot); getByID fallbacks in 8 append methods; labels.Equal in seriesHashmap get/set; immutability of memSeries.ref; tombstone record for evicted series.",
+		NotCover:       "the scrape cache and remote-write reference use after restart (runtime histories).",
+		Run:            runC22,
 		MinObligations: 25,
 	})
 }
